@@ -77,8 +77,11 @@ struct Shared {
     accept_ok: Vec<u64>,
     accept_err: u32,
     sig_fired: bool,
+    sig_fire_seq: u64,
     sig_seq: u64,
     sig_waker: Option<Waker>,
+    sig_on_make: usize,
+    srv_at_signal: String,
     make_gated: bool,
     makes: usize,
     make_dec: HashMap<usize, bool>,
@@ -199,6 +202,16 @@ impl<'a, T> tower::Service<&'a T> for MakeSvc {
         g.makes += 1;
         let aidx = g.makes;
         ev(&mut g, format!("make:{aidx}"));
+        if g.sig_on_make != 0 && g.sig_on_make == aidx && !g.sig_fired {
+            // the shutdown signal becomes ready INSIDE the accept loop's poll (between two accepts of a burst)
+            g.sig_fired = true;
+            g.srv_at_signal = "running".into();
+            let s = ev(&mut g, "sigfire".into());
+            g.sig_fire_seq = s;
+            if let Some(w) = g.sig_waker.take() {
+                w.wake();
+            }
+        }
         MakeFut { sh: self.sh.clone(), aidx }
     }
 }
@@ -469,6 +482,8 @@ struct Cfg {
     acc: String, // duplex | tcp | unix
     #[serde(default)]
     make_gated: bool,
+    #[serde(default)]
+    sig_on_make: usize,
     #[serde(default = "dflt_nconn")]
     nconn: usize,
     #[serde(default = "dflt_nreq")]
@@ -759,7 +774,8 @@ struct Runner {
     paused: bool,
     srv: Option<tokio::task::JoinHandle<Result<(), String>>>,
     srv_state: String,
-    srv_at_signal: String,
+    stalled: bool,
+    resets: usize,
     clis: Vec<Cli>, // index 0 unused
     probes: Vec<Cli>,
     pending_q: VecDeque<(bool, usize)>, // (is_probe, index)
@@ -828,6 +844,7 @@ impl Runner {
     async fn new(cfg: Cfg, tls: Option<&TlsMat>, paused: bool, scratch: &str) -> Runner {
         let sh: Sh = Default::default();
         sh.lock().unwrap().make_gated = cfg.make_gated;
+        sh.lock().unwrap().sig_on_make = cfg.sig_on_make;
         let (dial, acceptor): (Dial, Acceptor) = match cfg.acc.as_str() {
             "duplex" => {
                 let (c, inc) = hyperdriver::stream::duplex::pair();
@@ -865,7 +882,8 @@ impl Runner {
             paused,
             srv: Some(srv),
             srv_state: "running".into(),
-            srv_at_signal: String::new(),
+            stalled: false,
+            resets: 0,
             clis,
             probes: vec![],
             pending_q: VecDeque::new(),
@@ -995,9 +1013,17 @@ impl Runner {
     }
 
     async fn settle(&mut self) {
+        if self.stalled {
+            return;
+        }
         if self.paused {
             for _ in 0..8 {
-                tokio::time::sleep(Duration::from_millis(1)).await;
+                // the paused clock only advances when every task is idle: a task that never goes idle would
+                // hang the harness, so the sleep is guarded by a REAL-time watchdog and a stall becomes data
+                if guarded_sleep(Duration::from_millis(1)).await {
+                    self.stalled = true;
+                    break;
+                }
                 if !self.repoll_connects() {
                     break;
                 }
@@ -1203,7 +1229,9 @@ impl Runner {
                     return false;
                 }
                 g.sig_fired = true;
-                self.srv_at_signal = self.srv_state.clone();
+                g.srv_at_signal = self.srv_state.clone();
+                let s = ev(&mut g, "sigfire".into());
+                g.sig_fire_seq = s;
                 if let Some(w) = g.sig_waker.take() {
                     w.wake();
                 }
@@ -1376,7 +1404,7 @@ impl Runner {
             }).collect::<Vec<_>>(),
             "det": self.paused,
             "bconns": self.batch.iter().map(|s| s.c).collect::<Vec<_>>(),
-            "srv": self.srv_state, "srvAtSignal": self.srv_at_signal,
+            "srv": self.srv_state, "srvAtSignal": g.srv_at_signal, "stalled": self.stalled, "sigFireSeq": g.sig_fire_seq,
             "sigFired": g.sig_fired, "sigSeq": g.sig_seq,
             "acceptSeqs": g.accept_ok, "acceptErrs": g.accept_err, "makes": g.makes, "makePending": make_pending,
             "listenerLost": self.listener_lost, "makeFailed": self.make_failed, "cancelled": self.cancelled,
